@@ -567,4 +567,45 @@ def random_request(r, flavor=None):
     req = b.build()
     if context_cost(req) is None:
         raise Invalid("reference graph too dense for the generator's with_context traversal")
-    return req, sorted(b.features)
+    return req, sorted(b.features | graph_features(req))
+
+
+def graph_features(req):
+    """forward references (to a message declared later in the same file) and reference cycles through two or more messages."""
+    u = universe(req)
+    feats = set()
+    order = {n: i for i, n in enumerate(u)}
+    edges = {}
+    for n, t in u.items():
+        if t["kind"] != "m" or not is_pp(t["pkg"]):
+            continue
+        outs = set()
+        for f in t["pb"].field:
+            if f.type == F.TYPE_MESSAGE:
+                tgt = f.type_name.lstrip(".")
+                a = u[tgt]
+                if a["pb"].options.map_entry:
+                    v = next((x for x in a["pb"].field if x.name == "value"), None)
+                    if v is None or v.type != F.TYPE_MESSAGE:
+                        continue
+                    tgt = v.type_name.lstrip(".")
+                    a = u[tgt]
+                outs.add(tgt)
+                if a["file"] == t["file"] and not a["parent"] and not t["parent"] and order[tgt] > order[n]:
+                    feats.add("ref-forward")
+        edges[n] = outs
+    # a cycle of length >= 2: n reaches itself through another message
+    for n in edges:
+        seen, todo = set(), [x for x in edges[n] if x != n]
+        while todo:
+            x = todo.pop()
+            if x == n:
+                feats.add("mutual-recursion")
+                break
+            if x in seen or x not in edges:
+                continue
+            seen.add(x)
+            todo += list(edges[x])
+        if "mutual-recursion" in feats:
+            break
+    return feats
